@@ -21,6 +21,9 @@ def volumetricDrivingForce(therm: GeneralThermodynamics, x, T, precipitate: Prec
     '''
     x, T = _process_xT_arrays(x, T, therm.numElements == 2)
     chemDGs, betaComp = therm.getDrivingForce(x, T, precPhase=precipitate.phase, removeCache=removeCache)
+    #getDrivingForce returns None if the matrix equilibrium could not be computed
+    if chemDGs is None or any(dg is None for dg in np.atleast_1d(chemDGs)):
+        return None, None, None
     volDGs = chemDGs / precipitate.volume.Vm
     volDGs -= precipitate.strainEnergy.compute(precipitate.shapeFactor.description.normalRadii(aspectRatio))
 
